@@ -162,6 +162,101 @@ def run_stage_d(R, binary):
     return mism + unk
 
 
+def run_stage_j(R, binary):
+    """suite "joint-through-rawnode": JF / JG / JA / JH / JP lines of `raftsim -stageJ` (harness/raftjoint.go) recomputed by Raft/RSJ.lean"""
+    cases = 40 if R.tier == "quick" else 2500
+    args = ["-schedules", "0", "-stageA", "0", "-stageJ", str(cases), "-seed", str(R.seed * 11 + 7)]
+    t0 = time.time()
+    lines, se, rc = core.run_harness(binary, "raftsim", [], args=args)
+    harness_s = time.time() - t0
+    judged = [l for l in lines if l[:3] in ("JF ", "JG ", "JA ", "JH ", "JP ")]
+    stray = [l for l in lines if not l.startswith("#") and l[:3] not in ("JF ", "JG ", "JA ", "JH ", "JP ")]
+    ds = run_driver_chunks(judged + stray, 1 if R.tier == "quick" else max(2, min(10, (os.cpu_count() or 4) - 2)))
+    mism = [m for d in ds for m in d["mismatches"]]
+    unk = [u for d in ds for u in d["unknown"]]
+    summ = {}
+    for d in ds:
+        for k, v in d["summary"].items():
+            if v.isdigit():
+                summ[k] = summ.get(k, 0) + int(v)
+    g = lambda pre: {k[len(pre):]: v for k, v in sorted(summ.items()) if k.startswith(pre)}
+    nd = summ.get("stageD", 0)
+    panics = [l for l in lines if l.startswith("# panic")]
+    need = ["d:JF/enter-autoleave", "d:JF/enter-explicit", "d:JF/leave", "d:JF/simple", "d:JG/accepted", "d:JG/refused-pending", "d:JG/refused-joint",
+            "d:JG/refused-not-joint", "d:JA/appended", "d:JH/campaigns-joint", "d:JP/passed-gate-and-panicked"]
+    missing = [k for k in need if summ.get(k, 0) == 0]
+    nontrivial = summ.get("d:JF/now-joint", 0) + summ.get("d:JF/leave", 0) + sum(v for k, v in summ.items() if k.startswith("d:JG/refused")) + summ.get("d:JA/appended", 0)
+    pick = [l for l in judged if l.startswith("JF ") and " e1:" in l][:1] + [l for l in judged if l.startswith("JF ") and " l:- " in l][:1] + \
+        [l for l in judged if l.startswith("JG ") and len(l.split()[5]) > 1][:1] + [l for l in judged if l.startswith("JA ") and l.split()[7] == "1"][:1] + \
+        [l for l in judged if l.startswith("JP ")][:1]
+    R.add_cases(nd, nontrivial, samples=pick)
+    ok = rc == 0 and not mism and not unk and not stray and nd == len(judged) and not missing
+    R.oblige("Stage D tie, joint changes through the log: with ConfChangeV2 proposals of every shape handed to the leader's RawNode (ProposeConfChange / one proposal "
+             "message with several entries; Simple, EnterJoint with automatic or explicit leave, LeaveJoint, the legacy ConfChange), RawNode = Raft/RSJ.lean on every "
+             "applied conf change on every node (tracker voters / outgoing / learners / learnersNext / AutoLeave = RSJ.applyCC), every proposal stepped on a leader "
+             "(appended as conf change or replaced by an empty entry for etcd's three reasons, new pendingConfIndex = RSJ.gateSeq), every Advance (the leader appends "
+             "the empty ConfChangeV2 iff AutoLeave and oldApplied <= pendingConfIndex <= newApplied; the model's autoLeave step is then enabled and its gate accepts) and "
+             "every Campaign() (iff RSJ.campaignGate: promotable also as a voter of the outgoing half only)",
+             "correspondence", ok, "%d mismatches, %d unknown, %d stray lines, %d/%d lines judged, never seen: %s" % (
+                 len(mism), len(unk), len(stray), nd, len(judged), ",".join(missing) or "-"))
+    # the observation of Props/C15JointSafe.lean, on the real code
+    R.oblige("observation RSJ.enter_empty_passes_gate_and_is_refused_by_changer reproduced on raft.RawNode: while joint, ConfChangeV2{JointExplicit|JointImplicit, no "
+             "changes} passes stepLeader's gate and ApplyConfChange panics (\"config is already joint\") - library level, rconf cannot propose it",
+             "observation", summ.get("d:JP", 0) == summ.get("d:JP/passed-gate-and-panicked", 0) and (summ.get("d:JP", 0) > 0 or R.tier != "quick"),
+             "%d probes, %d passed the gate and panicked at apply (%d node panics in all)" % (summ.get("d:JP", 0), summ.get("d:JP/passed-gate-and-panicked", 0), len(panics)))
+    # negative control: damage outcomes, the driver must object to each
+    ctl = []
+    for l in judged:
+        f = l.split(" ")
+        if f[0] == "JF" and sum(1 for c in ctl if c.startswith("JF ")) < 10 and f[4] != f[9]:
+            f[9] = f[4]  # the voters after := the voters before, on a line where they changed
+            ctl.append(" ".join(f))
+        elif f[0] == "JG" and sum(1 for c in ctl if c.startswith("JG ")) < 10 and f[6]:
+            f[6] = "".join("0" if c == "1" else "1" for c in f[6])
+            ctl.append(" ".join(f))
+        elif f[0] == "JA" and sum(1 for c in ctl if c.startswith("JA ")) < 6 and f[7] == "1":
+            f[7] = "0"
+            ctl.append(" ".join(f))
+        elif f[0] == "JH" and sum(1 for c in ctl if c.startswith("JH ")) < 6:
+            f[-1] = "0" if f[-1] == "1" else "1"
+            ctl.append(" ".join(f))
+    if ctl:
+        dc = run_raft_driver(ctl)
+        hit = len(dc["mismatches"])
+        R.oblige("negative control joint tie: the driver objects to damaged configurations after apply, gate outcomes, automatic leaves and campaign outcomes "
+                 "(%d lines damaged, %d objections)" % (len(ctl), hit), "control", hit >= len(ctl), "%d of %d" % (hit, len(ctl)))
+        R.extra.setdefault("negative_control", {})["joint_tie"] = dict(damaged=len(ctl), reported=hit)
+        if hit < len(ctl):
+            R.violation("negative-control-joint", dict(kind="tie-broken", summary="the joint-configuration driver accepted damaged lines (%d of %d reported)" % (hit, len(ctl)),
+                                                       trace=ctl[:40]), found_input=False)
+    R.suites.append(dict(name="joint-through-rawnode", scenarios=cases, lines=len(judged), recomputed=nd, mismatches=len(mism) + len(unk) + len(stray),
+                         harness_s=round(harness_s, 1), driver_s=round(max(d["seconds"] for d in ds), 1), driver_processes=len(ds)))
+    R.extra["stageD_joint_tie"] = dict(
+        scenarios=cases, applied_conf_changes=g("d:JF/"), proposals=g("d:JG/"), advances=g("d:JA/"), campaigns=g("d:JH/"), probes=g("d:JP/"),
+        note="JF: RSJ.applyCC (the fold step of RSJ.cfgAt) on every node that applies; JG: RSJ.gateSeq with joint = len(Voters[1]) > 0 and per entry only what the gate "
+             "looks at (conf change or not, len(Changes) == 0); JA: Advance's direct append; JH: RSJ.campaignGate; the safety theorem RSJ.C15_joint_holds is about the model "
+             "whose configuration part is compared here - whole joint schedules are not replayed on an executable handler (RHC.handleC is the single-change handler)")
+    for k, m in enumerate((mism + unk)[:3]):
+        R.violation("raftsim-stageJ-%d" % k, dict(
+            kind="tie-broken", engine="raftsim", suite="joint-through-rawnode", summary=m[:400], schedule=None, trace=[m.split(" :: ", 1)[-1]],
+            explanation="etcd's RawNode and the joint-configuration model Raft/RSJ.lean disagree on this line (configuration after an applied conf change, the proposal "
+                        "gate, the automatic leave or the campaign gate): RSJ.C15_joint_holds no longer transfers to the code until the model or the code is repaired; the "
+                        "line is self-contained (replay: feed it to lean/RaftDriver.lean)"))
+    for k, l in enumerate(stray[:2]):
+        R.violation("raftsim-stageJ-stray-%d" % k, dict(kind="tie-broken", engine="raftsim", suite="joint-through-rawnode", summary=l[:300], schedule=None, trace=[l],
+                                                         explanation="the joint scenario engine reported an unexpected panic / error of RawNode"))
+    return mism + unk + stray
+
+
+def run_driver_chunks(lines, workers):
+    """self-contained lines (no schedule state): split evenly over `workers` interpreted drivers"""
+    if workers <= 1 or len(lines) < 4000:
+        return [run_raft_driver(lines)]
+    per = (len(lines) + workers - 1) // workers
+    chunks = [lines[k:k + per] for k in range(0, len(lines), per)]
+    with concurrent.futures.ThreadPoolExecutor(max_workers=workers) as ex:
+        return list(ex.map(run_raft_driver, chunks))
+
 def run(R, ctx):
     R.rule = ("one evaluation = one event on one RawNode (a RawNode call + the full Ready/Advance cycle) replayed through RS.handle and compared "
               "exactly, plus the Stage-A cases; a schedule is non-trivial when it had >= 2 leader terms, or a restart from persisted state, or a "
@@ -331,6 +426,9 @@ def run(R, ctx):
 
     # ---- Stage D, first step: quorum + confchange layer
     mism_d = run_stage_d(R, binary)
+
+    # ---- Stage D, last step: joint configuration changes through RawNode against Raft/RSJ.lean
+    mism_d = mism_d + run_stage_j(R, binary)
 
     # ---- failing schedules
     for k, sv in enumerate(safety[:3]):
